@@ -71,10 +71,10 @@ def models(tier):
               profiles=[[]], only=['export', 'brackets', 'tigerxml', 'discobrackets']),
          dict(N=2, MaxCons=2, MaxChain=1, kinds=LENKINDS, labels=['S'], edges=['--'], profiles=[[]],
               only=['export', 'tigerxml'])]
-    t = [dict(N=3, MaxCons=3, MaxChain=2,
+    t = [dict(N=3, MaxCons=2, MaxChain=2,
               kinds=[kind('w', sfx=True), kind('('), kind(')'), kind('a&<', tag='$('), kind(u'Üb"\'', sfx=True),
-                     kind('-LRB-'), kind('x' * 8), kind('y' * 15, sfx=True)],
-              labels=['NP', 'S-X'], edges=['HD', '--'],
+                     kind('x' * 8)],
+              labels=['S-X'], edges=['HD', '--'],
               profiles=[[], ['lemma'], ['morph'], ['edge'], ['lemma', 'morph', 'edge']]),
          dict(N=5, MaxCons=4, MaxChain=1, kinds=[kind('w', sfx=True)], labels=['S'], edges=['--'],
               profiles=[[]], only=['export', 'brackets', 'tigerxml', 'discobrackets']),
